@@ -7,6 +7,7 @@ State ops (reply `ok`):
   `w a ct cid <mod>` — one local modify = modlist then plugin; `<mod>` is one of
      `prim c|-` · `upd fresh` · `pk+ c` · `pk- c` · `apk+ c` · `apk- c` · `o2c c|-`
      `rec s cred exp|- issued` · `rev s` · `purge` · `grant o parent|- exp|- issued` · `revo2 o` · `touch`
+  `rep a absent|empty` — how the implementation currently represents an empty login-session attribute
 Queries:
   `uats a`  → `absent` | `-` | `k:E<exp>|N|R:cred,…` (sorted by session id)
   `o2s a`   → `-` | `k:E<exp>|N|R:parent|-:issued,…`
@@ -72,6 +73,15 @@ def handle (st : St) (line : String) : St × String :=
       | some e => (setE st a (step e (.write m ct cid)), "ok")
       | none => (st, "no-acct")
     | _, _, _, _ => (st, "bad-op")
+  | ["rep", a, r] =>
+    -- representation of an *empty* login-session attribute (absent vs empty map) follows the
+    -- implementation's entry cache / store round trip (D27); only an empty map can be re-labelled
+    match (nat? a).bind (getE st) , nat? a with
+    | some e, some a =>
+      if (e.uats.getD []).isEmpty then
+        (setE st a { e with uats := if r == "absent" then none else some [] }, "ok")
+      else (st, "nonempty")
+    | _, _ => (st, "bad-op")
   | ["uats", a] =>
     match (nat? a).bind (getE st) with
     | some e =>
